@@ -316,6 +316,7 @@ class CorpusHarness(Harness):
             results = []
             http_total = 0
             served = []
+            killed_at_table_removal = False
             try:
                 io.open = fs.open
                 net.open = fs.open
@@ -368,6 +369,8 @@ class CorpusHarness(Harness):
                         results.append(("returned", final_root))
                     except Crash:
                         results.append(("killed", None))
+                        if fs.log and fs.log[-1][1] == "unlink" and fs.log[-1][2].endswith(".offset"):
+                            killed_at_table_removal = True
                     except BaseException as e:  # noqa
                         results.append(("raised", e))
                     fs.frozen = False
@@ -449,8 +452,14 @@ class CorpusHarness(Harness):
                         firstdiff = next((k for k in range(min(len(data), len(content))) if data[k] != content[k]), min(len(data), len(content)))
                         how = "killed earlier incarnation" if any(r[0] == "killed" for r in results) else "no kill"
                         key = "content-differs" + ("-after-kill" if how.startswith("killed") else "")
-                        if how.startswith("killed") and not cfg["declare_uncompressed"] and arch_name and content.startswith(data):
+                        # the open known finding is exactly this: cut *inside the last line* (all earlier lines complete, the last one
+                        # partial but not empty), so that the line count still matches; anything else is a different violation
+                        if how.startswith("killed") and not cfg["declare_uncompressed"] and arch_name and data and content.startswith(data) and not data.endswith(b"\n") and data.count(b"\n") == content.count(b"\n") - 1:
                             key = "partial-decompression-accepted-undeclared-size"
+                        elif how.startswith("killed") and killed_at_table_removal and not cfg["declare_uncompressed"]:
+                            # second open known finding: the table of a file that failed the line-count check survives when the
+                            # process is killed right at its removal; being newer than the file it vouches for it from then on
+                            key = "rejected-file-vouched-for-by-table-that-survived-kill-at-removal"
                         bad("result", key, f"preparation returned but [{doc_name}] ({len(data)} bytes) differs from the published content ({len(content)} bytes) at byte {firstdiff}; sizes declared: compressed={cfg['declare_compressed']} uncompressed={cfg['declare_uncompressed']}; {how}; initial {init}")
                     # the offset table positions readers exactly like skipping line by line
                     total_lines = data.count(b"\n")
